@@ -215,19 +215,46 @@ def check_escaping(ctx):
     ctx.hist('escaping', 'strings', len(strs))
 
 # ------------------------------------------------------------------ (b) whole path
-def gen_stream(rng, n_replies=None):
-    """-> dict(kind='path', docs=[doc...], filters=[filter or None...], gaps=[bytes between replies])"""
+def _rename_below(rng, doc, r, new):
+    """doc with one element strictly below a top-level element named r renamed to `new` (None if there is none)."""
+    paths = []
+    def walk(t, path, below):
+        for i, k in enumerate(t[3]):
+            if k[0] != 'E': continue
+            if below: paths.append(path + [i])
+            walk(k, path + [i], below or k[1] == r)
+    walk(doc, [], False)
+    if not paths: return None
+    target = rng.choice(paths)
+    def rebuild(t, path):
+        if not path: return ('E', new, t[2], t[3])
+        ks = list(t[3]); ks[path[0]] = rebuild(ks[path[0]], path[1:])
+        return ('E', t[1], t[2], ks)
+    return rebuild(doc, target)
+
+def gen_stream(rng, n_replies=None, linked=False):
+    """-> dict(kind='path', docs=[doc...], filters=[filter or None...], gaps=[bytes between replies]).
+    linked: a later reply contains, below its own top element, an element named like the first reply's top element
+    (software-information alone, then inside multi-routing-engine-results): what one request leaves behind in the
+    parser must not show in the next."""
     H, G = _H()
-    n = n_replies or rng.choice([1, 1, 2])
+    n = n_replies or (rng.choice([2, 2, 3]) if linked else rng.choice([1, 1, 2]))
     docs, fls = [], []
     ids = H.ids_for(n)
+    r0 = None
     for i in range(n):
         for _try in range(50):
             doc, r = G.gen_doc(rng, ids[i], rng.choice(['inclass', 'inclass', 'inclass', 'wrapper']))
+            if linked and i > 0:
+                if r == r0: continue
+                d2 = _rename_below(rng, doc, r, r0)
+                if d2 is None: continue
+                doc = d2
             f = G.gen_filter(rng, doc, r)
             if G.reasons(doc, f) <= {'wrapper'} and not G.has_cr(doc) and len(G.ser(doc)) < 330: break
         docs.append(doc)
-        fls.append(f if rng.random() < 0.6 else None)
+        if i == 0: r0 = r
+        fls.append(f if rng.random() < (0.9 if linked else 0.6) else None)
     gaps = [rng.choice(['', '', '\n', '\n\n', ' ']) for _ in range(n)]
     return dict(kind='path', docs=docs, filters=fls, gaps=gaps)
 
@@ -373,6 +400,12 @@ def run(ctx):
             for (a, b) in interesting_positions(case)[1::2]:
                 cutsets += [list(p) for p in itertools.combinations(range(max(1, b - 8), min(L - 1, b + 2) + 1), 2)]
         check_path_case(ctx, case, cutsets)
+    # (c) histories: the replies of one session share element names across requests
+    for k in range(300 if thorough else 60):
+        case = gen_stream(rng, linked=True)
+        L = len(stream_bytes(case))
+        check_path_case(ctx, case, [[]] + [sorted(rng.sample(range(1, L), min(L - 1, 3))) for _ in range(2)])
+        ctx.hist('path_linked', 'histories')
     if thorough:
         # all double cuts of two short streams (two adjacent replies, filter/no filter)
         for k in range(2):
